@@ -36,6 +36,11 @@ C = {
    "consumer pacing and schedules vary; the follow start is read from /proc/self/fdinfo; oracle: appended lines exactly once, in order, unmodified, old content never, "
    "losses only with a < 100 % indication and never when the session selected fewer than 100 lines.",
    "deterministic simulation: simulated writer task + fake clock + consumer stalls, tail reference model"),
+ "C13": ("exploration", "5 C13",
+   "Seeded histories of concurrent SSH sessions (cat over globs, tails) against one real dserver with small limits, resets and closes placed relative to the limiter by fake time and "
+   "schedule decisions; after every step touching the read path the number of scenario files held open by the process (/proc/self/fd) is compared with the limit; "
+   "liveness: non-cancelled sessions get all files; a second wave of held reads counts the usable slots (leak / double release).",
+   "deterministic simulation: session/cancel histories x limiter-select schedules, step-wise counting invariant"),
 }
 
 checks = []
